@@ -1081,7 +1081,7 @@ def run(ctx: vlib.Ctx):
     if k4_ok:
         kernel_validation(ctx, rng)
     nested_stream(ctx, rng, k4_ok)
-    n_classes = ctx.budget(200, 380)
+    n_classes = ctx.budget(200, 320)
     sub_max = ctx.budget(32, 256)
     forced = [{"allow": a, "forbid": b, "mixin": m, "nf": nf, "depth": dp} for a in (False, True) for b in (False, True)
               for m in (None, "dict") for nf, dp in ((1, 1), (2, 3))]
